@@ -258,13 +258,17 @@ def epics_builder_part(ck, tier, rng):
 
     scenarios = [([["AMP", True]], [["AMP", True], ["OTHER", False]]),
                  ([["AMP", False]], [["AMP", False], ["OTHER", True]]),
-                 ([["AMP", True]], [["OTHER", True], ["AMP", True]])]
+                 ([["AMP", True]], [["OTHER", True], ["AMP", True]]),
+                 # several devices of one kind: the SAME database file (a template instantiated per device name)
+                 ([["AMP", "shared"]], [["OTHER", "shared"], ["AMP", "shared"]]),
+                 ([["AMP", "shared"]], [["AMP", "shared"], ["OTHER", "shared"], ["THIRD", "shared"]])]
     for base, ext in scenarios:
         rb, re_ = child(base), child(ext)
         ck.count("epics-builder:" + json.dumps(ext), True)
         ck.evaluations += 2
+        mine = lambda r: [l for l in r.get("loaded", []) if l[0] == "device=AMP"]  # noqa: E731
         same = (rb["records"].get("AMP") == re_["records"].get("AMP") == "AMP:VALUE" and rb["started"] == re_["started"] == 1
-                and not rb["errors"] and not re_["errors"])
+                and not rb["errors"] and not re_["errors"] and mine(rb) == mine(re_) and len(mine(rb)) == (1 if base[0][1] else 0))
         if not same:
             ck.report("epics-device-affected-by-an-unrelated-epics-device",
                       f"EPICS device AMP alone: {rb}; with an unrelated EPICS device set up at the same time: {re_}",
